@@ -43,6 +43,12 @@ def run_one(meta_path):
             r = subprocess.run([os.path.join(VERIF, "bin", "govc"), "check", "--property", meta["property"], "--tier", "quick"],
                                capture_output=True, text=True, env=env)
             viol = [l for l in r.stdout.splitlines() if l.startswith("VIOLATION")]
+        if meta.get("kind") == "known-brittle":
+            # a behaviour-preserving edit that is known to alarm (DESIGN.md §10.7): it must
+            # alarm only in the documented way, so that the limitation does not grow silently
+            stray = [v for v in viol if not any(e in v for e in meta["expect"])]
+            ok = not stray
+            return name, ok, ("alarms as documented (%d lines): %s" % (len(viol), meta.get("why", ""))) if ok else "undocumented alarm: " + "; ".join(stray)[:400]
         if meta.get("kind", "must-fail") == "must-pass":
             ok = r.returncode == 0 and not viol
             return name, ok, "clean" if ok else "unexpected: " + "; ".join(viol)[:400]
